@@ -881,7 +881,7 @@ func main() {
 	rng := rand.New(rand.NewSource(seed))
 	rand.Seed(seed) // pd's waiting-operator buckets draw from the global source
 
-	r.Rule("directed family: AddWaitingOperator batches of 2-4 operators over different regions (same / different descriptions) x {foreign conf change, version bump, nothing} on the region of an operator that is left waiting x promotion triggered by {PromoteWaitingOperator, another AddWaitingOperator, the running operator finishing, going stale, being removed}; complete grid of a region-cache update (conf change / leader change / eviction) placed before every cache read of 9 controller-call scenarios (AddOperator, admin replace, merge pair, AddWaitingOperator batch, PromoteWaitingOperator, Dispatch finishing and promoting, Dispatch mid-operator, Dispatch(push), PushOperators); populated worlds of 99-160 regions (100+ operators running, waiting buckets at their per-description limit); own-steps-only executions in which every newly applied step is met by TWO concurrent Dispatch calls (heartbeat‖push, heartbeat‖heartbeat) released together; then worlds of 4-7 stores and 3-6 adjacent regions (feature modes joint consensus / demotion without joint consensus / legacy); operators from the real builder and constructors over random targets (add/remove/promote/demote/move/transfer, demotion-only joint changes, light peers, leave-joint, split, merge pairs; normal and admin priority; built from pd's current or a superseded view); phase 1 executes each operator with its own steps only; phase 2 is a PRNG loop over {AddOperator, AddWaitingOperator, PromoteWaitingOperator, admin operator (replace), RemoveOperator, store executes / duplicates / loses a pending command, region-cache update, Dispatch(heartbeat), Dispatch(active push), PushOperators, foreign conf change with fresh peer ids (add learner, remove follower, promote, demote), foreign version bump / split, foreign leader change incl. onto the peer about to be removed}; phase 3 issues the same calls from 8 goroutines over 4 regions. evaluations = operators that were admitted and observed until they ended; distinct = distinct (mode, step-kind sequence, end status, kinds of foreign change, ended-by) tuples")
+	r.Rule("directed family: AddWaitingOperator batches of 2-4 operators over different regions (same / different descriptions) x {foreign conf change, version bump, nothing} on the region of an operator that is left waiting x promotion triggered by {PromoteWaitingOperator, another AddWaitingOperator, the running operator finishing, going stale, being removed}; complete grid of a region-cache update (conf change / leader change / eviction) placed before every cache read of 9 controller-call scenarios (AddOperator, admin replace, merge pair, AddWaitingOperator batch, PromoteWaitingOperator, Dispatch finishing and promoting, Dispatch mid-operator, Dispatch(push), PushOperators); populated worlds of 99-160 regions (100+ operators running, waiting buckets at their per-description limit); operators aged past their timeout (running) or expiry (waiting) deadline whose single deadline poll {Dispatch, PushOperators, GetOpInfluence, String} is released together with {RemoveOperator, higher-priority AddOperator, the Dispatch that finds the last step finished}, statuses sampled under one lock while the round runs; one-field heartbeats (pending, down, size, term) at every step; two or three regions at the same step with their commands kept queued; own-steps-only executions in which every newly applied step is met by TWO concurrent Dispatch calls (heartbeat‖push, heartbeat‖heartbeat) released together; then worlds of 4-7 stores and 3-6 adjacent regions (feature modes joint consensus / demotion without joint consensus / legacy); operators from the real builder and constructors over random targets (add/remove/promote/demote/move/transfer, demotion-only joint changes, light peers, leave-joint, split, merge pairs; normal and admin priority; built from pd's current or a superseded view); phase 1 executes each operator with its own steps only; phase 2 is a PRNG loop over {AddOperator, AddWaitingOperator, PromoteWaitingOperator, admin operator (replace), RemoveOperator, store executes / duplicates / loses a pending command, region-cache update, Dispatch(heartbeat), Dispatch(active push), PushOperators, foreign conf change with fresh peer ids (add learner, remove follower, promote, demote), foreign version bump / split, foreign leader change incl. onto the peer about to be removed}; phase 3 issues the same calls from 8 goroutines over 4 regions. evaluations = operators that were admitted and observed until they ended; distinct = distinct (mode, step-kind sequence, end status, kinds of foreign change, ended-by) tuples")
 	r.Assume("pkg/mock/mockcluster is the opt.Cluster, lib/sim is the store (conf change v1/v2, refuses stale epochs, commands not addressed to the leader, simple changes in a joint state); all stores are up and store limits are unlimited (wall-clock token buckets)")
 	r.Assume("'the region's epoch / leader at send or admission time' is the region as pd's cache holds it during the call; Dispatch is always given the cached region (monotone views)")
 	r.Assume("own_applied = conf_ver units the simulator applied while executing commands that were sent for the operator; a foreign change that touches a peer (store, peer id) named by one of the operator's steps, or removes the peer of a store the operator removes from, cannot be told apart from the operator's own progress by pd: such operators are not judged for staleness (skipped_ambiguous_staleness); commands that cannot be attributed with certainty taint the operators of the region the same way")
